@@ -74,7 +74,9 @@ void AttributesTools::getAttributesMap(
     {
       // Splitted line
       i++;
-      arg = arg.substr(0, arg.length() - 1) + argv2[i];
+      arg = arg.substr(0, arg.length() - 1);
+      if (i < argv2.size())
+        arg += argv2[i]; // A continuation mark on the last line has nothing to join.
     }
     // Parsing:
     string::size_type limit = arg.find(delimiter, 0);
